@@ -93,6 +93,7 @@ bool Alarm::disable() {
   if (state_ == State::kRunning) {
     if (onDisable()) {
       state_ = State::kInited;
+      target_utc_sec_ = 0;    //! 否则再次 enable() 会从旧目标之后算起，跳过最近的那个时间点
       return sp_timer_ev_->disable();
     }
   }
